@@ -1,8 +1,302 @@
+/-
+  C09 driver: runs a whole history on the heap model (and, for `c09.spec`, on the value store).
+
+    c09.run   <history>      per step:  out '#' 16-hex digest of the observation string
+    c09.runv  <history>      per step:  out '#' observation string            (for diagnosis)
+    c09.spec  <history>      like c09.runv, computed on Spec.ValueSem (values, no heap)
+  steps are separated by ';' in request and reply.
+
+  history := op (';' op)*            words of an op are separated by one space
+    newtx|newctx ver lock vin vout wit        (vin/vout/wit in the TxFmt text form; '' = empty list)
+    newhdr header          newblk header n1,n2,…
+    snap T | mcopy T | del T | ser T | hash T | txid T | pyhash T | eq T T
+    set T field value      field ∈ hash n scriptSig nSequence nValue scriptPubKey nVersion nLockTime
+    setvin r vin | setvout r vout | addin r txin | repin r i txin | rmin r i
+    addout r txout | repout r i txout | rmout r i | setwit r wit
+    sighash r subscripthex inIdx hashtype | sighashw r inIdx hashtype
+    verify r inIdx sub:ht,sub:ht,…
+  T := name('.'childindex)*   name = index of the user step that created the root object.
+
+  After every user step the driver observes every live object (every non-sequence object below
+  every named root, preorder): mutability flag, serialize(), GetHash(), GetTxid(), hash() class,
+  `==` with the first object of the same class family, and the `==` matrix of the roots.  All of
+  it is done with `Model.Heap.step` on observation ops, so the theorems of Props/C09 cover it.
+-/
 import Driver.Util
+import Driver.TxFmt
+import BtcVerif.Model.Heap
 
 namespace Driver.C09
-open BtcVerif Driver
+open BtcVerif Driver BtcVerif.Spec.ValueSem BtcVerif.Model.Heap
 
-def handle (_op : String) (_args : List String) : Option String := none
+def noName : Nat := 1000000000
+
+def parseTarget? (s : String) : Option Target :=
+  match s.splitOn "." with
+  | r :: p => do
+      let r ← parseNat? r
+      let p ← p.mapM parseNat?
+      pure ⟨r, p⟩
+  | [] => none
+
+def parseIns? (s : String) : Option (List TxIn) := (splitList s '|').mapM TxFmt.parseTxIn?
+def parseOuts? (s : String) : Option (List TxOut) := (splitList s '|').mapM TxFmt.parseTxOut?
+
+def parseTxWords? (ver lock vin vout wit : String) : Option Tx := do
+  let ver ← parseInt? ver; let lock ← parseNat? lock
+  let vin ← parseIns? vin; let vout ← parseOuts? vout; let wit ← TxFmt.parseWit? wit
+  pure { nVersion := ver, vin := vin, vout := vout, wit := wit, nLockTime := lock }
+
+def parseField? (f v : String) : Option Field :=
+  match f with
+  | "hash" => (parseHex? v).map .hash
+  | "n" => (parseNat? v).map .n
+  | "scriptSig" => (parseHex? v).map .scriptSig
+  | "nSequence" => (parseNat? v).map .nSequence
+  | "nValue" => (parseInt? v).map .nValue
+  | "scriptPubKey" => (parseHex? v).map .scriptPubKey
+  | "nVersion" => (parseInt? v).map .nVersion
+  | "nLockTime" => (parseNat? v).map .nLockTime
+  | _ => none
+
+def parseCall? (s : String) : Option (Bytes × Nat) :=
+  match s.splitOn ":" with
+  | [a, b] => do let a ← parseHex? a; let b ← parseNat? b; pure (a, b)
+  | _ => none
+
+def parseOp? (s : String) : Option Op :=
+  match s.splitOn " " with
+  | ["newtx", a, b, c, d, e] => (parseTxWords? a b c d e).map .newTx
+  | ["newctx", a, b, c, d, e] => (parseTxWords? a b c d e).map .newCTx
+  | ["newhdr", h] => (TxFmt.parseHeader? h).map .newHeader
+  | ["newblk", h, ns] => do
+      let h ← TxFmt.parseHeader? h; let ns ← parseNatList? ns; pure (.newBlock h ns)
+  | ["snap", t] => (parseTarget? t).map .snapshot
+  | ["mcopy", t] => (parseTarget? t).map .mutCopy
+  | ["del", t] => (parseTarget? t).map .delAttr
+  | ["ser", t] => (parseTarget? t).map .ser
+  | ["hash", t] => (parseTarget? t).map .getHash
+  | ["txid", t] => (parseTarget? t).map .txid
+  | ["pyhash", t] => (parseTarget? t).map .pyHash
+  | ["eq", a, b] => do let a ← parseTarget? a; let b ← parseTarget? b; pure (.eq a b)
+  | ["set", t, f, v] => do let t ← parseTarget? t; let f ← parseField? f v; pure (.assign t f)
+  | ["setvin", r, l] => do let r ← parseNat? r; let l ← parseIns? l; pure (.setVin r l)
+  | ["setvout", r, l] => do let r ← parseNat? r; let l ← parseOuts? l; pure (.setVout r l)
+  | ["addin", r, v] => do let r ← parseNat? r; let v ← TxFmt.parseTxIn? v; pure (.appendIn r v)
+  | ["repin", r, i, v] => do
+      let r ← parseNat? r; let i ← parseNat? i; let v ← TxFmt.parseTxIn? v; pure (.replaceIn r i v)
+  | ["rmin", r, i] => do let r ← parseNat? r; let i ← parseNat? i; pure (.removeIn r i)
+  | ["addout", r, v] => do let r ← parseNat? r; let v ← TxFmt.parseTxOut? v; pure (.appendOut r v)
+  | ["repout", r, i, v] => do
+      let r ← parseNat? r; let i ← parseNat? i; let v ← TxFmt.parseTxOut? v; pure (.replaceOut r i v)
+  | ["rmout", r, i] => do let r ← parseNat? r; let i ← parseNat? i; pure (.removeOut r i)
+  | ["setwit", r, w] => do let r ← parseNat? r; let w ← TxFmt.parseWit? w; pure (.setWit r w)
+  | ["sighash", r, sub, i, ht] => do
+      let r ← parseNat? r; let sub ← parseHex? sub; let i ← parseNat? i; let ht ← parseNat? ht
+      pure (.sighash r sub i ht)
+  | ["sighashw", r, i, ht] => do
+      let r ← parseNat? r; let i ← parseNat? i; let ht ← parseNat? ht; pure (.sighashW r i ht)
+  | ["verify", r, i, cs] => do
+      let r ← parseNat? r; let i ← parseNat? i
+      let cs ← (if cs == "-" then some [] else (splitList cs ',').mapM parseCall?)
+      pure (.verify r i cs)
+  | _ => none
+
+/-! ### renaming user names to model/spec names -/
+
+def mapRoot (tbl : List Nat) (u : Nat) : Nat := tbl[u]?.getD noName
+def mapT (tbl : List Nat) (t : Target) : Target := ⟨mapRoot tbl t.root, t.path⟩
+
+def renameOp (tbl : List Nat) : Op → Op
+  | .newBlock h ns => .newBlock h (ns.map (mapRoot tbl))
+  | .snapshot t => .snapshot (mapT tbl t)
+  | .mutCopy t => .mutCopy (mapT tbl t)
+  | .assign t f => .assign (mapT tbl t) f
+  | .delAttr t => .delAttr (mapT tbl t)
+  | .setVin r l => .setVin (mapRoot tbl r) l
+  | .setVout r l => .setVout (mapRoot tbl r) l
+  | .appendIn r v => .appendIn (mapRoot tbl r) v
+  | .replaceIn r i v => .replaceIn (mapRoot tbl r) i v
+  | .removeIn r i => .removeIn (mapRoot tbl r) i
+  | .appendOut r v => .appendOut (mapRoot tbl r) v
+  | .replaceOut r i v => .replaceOut (mapRoot tbl r) i v
+  | .removeOut r i => .removeOut (mapRoot tbl r) i
+  | .setWit r w => .setWit (mapRoot tbl r) w
+  | .ser t => .ser (mapT tbl t)
+  | .getHash t => .getHash (mapT tbl t)
+  | .txid t => .txid (mapT tbl t)
+  | .pyHash t => .pyHash (mapT tbl t)
+  | .eq a b => .eq (mapT tbl a) (mapT tbl b)
+  | .sighash r s i h => .sighash (mapRoot tbl r) s i h
+  | .sighashW r i h => .sighashW (mapRoot tbl r) i h
+  | .verify r i c => .verify (mapRoot tbl r) i c
+  | op => op
+
+/-! ### rendering -/
+
+def short (b : Bytes) : String := toHex (b.take 8)
+
+def showRes (r : Res Bytes) (f : Bytes → String) : String :=
+  match r with
+  | .ok b => f b
+  | .error e => "err:" ++ e.family
+
+def showOut : Out → String
+  | .done => "done" | .created => "created" | .na => "na" | .badRef => "badref"
+  | .bytes r => "b:" ++ showRes r toHex
+  | .bool (.ok b) => if b then "B:1" else "B:0"
+  | .bool (.error e) => "B:err:" ++ e.family
+  | .err e => "err:" ++ e.family
+
+/-- a machine the driver can run a history on: the heap model or the value store -/
+structure Machine (σ : Type) where
+  step : σ → Op → σ × Out
+  nameCount : σ → Nat
+  /-- the live objects below a root, preorder: (path, family, isMutable) of every non-sequence object -/
+  targets : σ → Nat → List (List Nat × Nat × Bool)
+
+/-! #### enumerating the live objects -/
+
+def scFamily : Scalars → Nat
+  | .outpoint _ _ => 0 | .txin _ _ => 1 | .txout _ _ => 2 | .inwit _ => 3 | .wit => 4 | .tx _ _ => 5
+  | .header _ => 6 | .block _ => 6 | .seq _ => 7
+
+mutual
+def walkA (path : List Nat) : ATree → List (List Nat × Nat × Bool)
+  | .node _ m sc kids =>
+      let here := if sc.isSeq then [] else [(path, scFamily sc, m)]
+      here ++ walkAs path 0 kids
+def walkAs (path : List Nat) (i : Nat) : List ATree → List (List Nat × Nat × Bool)
+  | [] => []
+  | t :: ts => walkA (path ++ [i]) t ++ walkAs path (i + 1) ts
+end
+
+def heapTargets (s : St) (r : Nat) : List (List Nat × Nat × Bool) :=
+  match s.root r with
+  | none => []
+  | some a =>
+    match unfoldA D s.heap a with
+    | none => []
+    | some t => walkA [] t
+
+/-- the same enumeration on a value (kids of a value = `Val.child 0, 1, …`) -/
+def valKids (v : Val) : List Val :=
+  match v with
+  | .txin i => [.outpoint i.prevout]
+  | .wit w => [.stacks w]
+  | .tx t => [.ins t.vin, .outs t.vout, .wit t.wit]
+  | .block b => [.txs b.vtx]
+  | .ins l => l.map .txin
+  | .outs l => l.map .txout
+  | .stacks l => l.map .inwit
+  | .txs l => l.map .tx
+  | _ => []
+
+def walkV : Nat → Bool → List Nat → Val → List (List Nat × Nat × Bool)
+  | 0, _, _, _ => []
+  | f + 1, m, path, v =>
+      let here := if v.isSeq then [] else [(path, v.family, m)]
+      here ++ ((valKids v).zipIdx.flatMap fun (k, i) => walkV f (m && !k.alwaysImm) (path ++ [i]) k)
+
+def storeTargets (s : Store) (r : Nat) : List (List Nat × Nat × Bool) :=
+  match (s[r]?).join with
+  | none => []
+  | some e => walkV D e.isMut [] e.val
+
+def heapMachine : Machine St :=
+  { step := Model.Heap.step, nameCount := fun s => s.names.length, targets := heapTargets }
+
+def specMachine : Machine Store :=
+  { step := Spec.ValueSem.step, nameCount := fun s => s.length, targets := storeTargets }
+
+/-! #### one user step with its observations -/
+
+def showPath (u : Nat) (p : List Nat) : String := ".".intercalate (toString u :: p.map toString)
+
+def classIndex (seen : List String) (x : String) : Nat × List String :=
+  match seen.idxOf? x with
+  | some i => (i, seen)
+  | none => (seen.length, seen ++ [x])
+
+structure Acc (σ : Type) where
+  st : σ
+  firstOfFam : List (Nat × Target)
+  pyClasses : List String
+  outStrs : List String
+
+def observeTarget {σ} (m : Machine σ) (u : Nat) (acc : Acc σ) (mi : Nat) (x : List Nat × Nat × Bool) :
+    Acc σ :=
+  let (path, fam, isMut) := x
+  let t : Target := ⟨mi, path⟩
+  let (s1, oSer) := m.step acc.st (.ser t)
+  let (s2, oHash) := m.step s1 (.getHash t)
+  let (s3, oTxid) := m.step s2 (.txid t)
+  let (s4, oPy) := m.step s3 (.pyHash t)
+  let rb (o : Out) (f : Bytes → String) : String :=
+    match o with
+    | .bytes r => showRes r f
+    | .na => "-"
+    | o => showOut o
+  let pyS := rb oPy toHex
+  let (ci, pcs) := if pyS.startsWith "err" then (0, acc.pyClasses) else classIndex acc.pyClasses pyS
+  let pyOut := if pyS.startsWith "err" then pyS else toString ci
+  let (s5, eqS, fof) :=
+    match acc.firstOfFam.lookup fam with
+    | none => (s4, "-", acc.firstOfFam ++ [(fam, t)])
+    | some t0 =>
+      let (s5, o) := m.step s4 (.eq t t0)
+      (s5, showOut o, acc.firstOfFam)
+  let str := s!"{showPath u path}:{if isMut then "M" else "I"}:{rb oSer (fun b => short (Crypto.sha256 b))}:{rb oHash short}:{rb oTxid short}:{pyOut}:{eqS}"
+  { st := s5, firstOfFam := fof, pyClasses := pcs, outStrs := acc.outStrs ++ [str] }
+
+def observeAll {σ} (m : Machine σ) (s : σ) (tbl : List Nat) : σ × String :=
+  let live : List (Nat × Nat) := tbl.zipIdx.filter fun (mi, _) => !(m.targets s mi).isEmpty
+  let acc0 : Acc σ := { st := s, firstOfFam := [], pyClasses := [], outStrs := [] }
+  let acc := live.foldl (fun acc (mi, u) =>
+      (m.targets acc.st mi).foldl (fun acc x => observeTarget m u acc mi x) acc) acc0
+  -- `==` matrix of the roots
+  let pairs := live.flatMap fun (mi, u) => (live.filter fun (_, u') => u < u').map fun (mj, _) => (mi, mj)
+  let (s', bits) := pairs.foldl (fun (s, bits) (mi, mj) =>
+      let (s1, o) := m.step s (.eq ⟨mi, []⟩ ⟨mj, []⟩)
+      (s1, bits ++ (match o with
+        | .bool (.ok true) => "1" | .bool (.ok false) => "0" | _ => "e"))) (acc.st, "")
+  (s', ",".intercalate acc.outStrs ++ "#" ++ bits)
+
+def extraOut (s : St) (tbl : List Nat) : Op → String
+  | .sighash r sub i ht =>
+      match s.root (mapRoot tbl r) with
+      | some a =>
+        match rawSigHash s.heap a sub i ht with
+        | some (_, d) => "=" ++ showRes d toHex
+        | none => ""
+      | none => ""
+  | _ => ""
+
+def digestStr (s : String) : String := short (Crypto.sha256 s.toUTF8.toList)
+
+def runHistory {σ} (m : Machine σ) (init : σ) (extra : σ → List Nat → Op → String)
+    (verbose : Bool) (ops : List Op) : String :=
+  let (_, _, outs) := ops.foldl (fun (s, tbl, outs) op =>
+      let op' := renameOp tbl op
+      let ex := extra s tbl op
+      let mi := m.nameCount s
+      let (s1, o) := m.step s op'
+      let tbl1 := tbl ++ [mi]
+      let (s2, obs) := observeAll m s1 tbl1
+      (s2, tbl1, outs ++ [showOut o ++ ex ++ "#" ++ (if verbose then obs else digestStr obs)])) (init, [], [])
+  ";".intercalate outs
+
+def handle (op : String) (args : List String) : Option String :=
+  match op, args with
+  | "c09.run", [h] => some <| match (h.splitOn ";").mapM parseOp? with
+      | some ops => runHistory heapMachine Model.Heap.init extraOut false ops
+      | none => badArgs
+  | "c09.runv", [h] => some <| match (h.splitOn ";").mapM parseOp? with
+      | some ops => runHistory heapMachine Model.Heap.init extraOut true ops
+      | none => badArgs
+  | "c09.spec", [h] => some <| match (h.splitOn ";").mapM parseOp? with
+      | some ops => runHistory specMachine Spec.ValueSem.init (fun _ _ _ => "") true ops
+      | none => badArgs
+  | _, _ => none
 
 end Driver.C09
